@@ -8,7 +8,7 @@ import numpy as np
 import common as C
 import loop_traces as LT
 
-THEORIES = ["Base", "EALoop", "EALoopProofs", "EALoopProofs2", "LoopCheck"]
+THEORIES = ["Base", "EALoop", "EALoopProofs", "EALoopProofs2", "EAStore", "EAStoreProofs", "LoopCheck"]
 TRUSTED = ["model: coq/theories/EALoop.v; replay checker coq/theories/LoopCheck.v; trace recorder harness/loop_traces.py "
            "(objective / genotype_to_phenotype wrappers, on_generation callback, np.shares_memory / `is` alias observations)"]
 ASSUMPTIONS = ["objective values finite (no NaN/inf: the record is never initialised on an all -inf batch)",
